@@ -798,13 +798,13 @@ func canonClient(sc *Scenario, rec *recorder, res *http.Response) []string {
 		}
 		frames, ok := splitFrames(body)
 		bodyCanon = framesCanon(frames)
-		if !ok {
-			bodyCanon = "MALFORMED"
-		}
 		for _, f := range frames {
 			if f.flags > 1 {
 				bodyCanon = "BADFLAGS"
 			}
+		}
+		if !ok {
+			bodyCanon = "MALFORMED" // (takes precedence, as in the model's rendering)
 		}
 	case sc.ClientProto == "grpcweb":
 		if tok, ok := grpcEndFromHeaders(sc, "hdr", hdr); ok {
